@@ -13,7 +13,6 @@ Local Open Scope R_scope.
 
 (* ---- (1) penalties are positive (and keep their size; with single_penalty_factor they stay one common value) ---- *)
 Theorem C07_sigma_positive : forall (P : alm_params) pb f0 g0 nanv Σ0 y0 script,
-  0 < p_max_pen P -> (p_single P = true -> 1 <= p_Delta P) ->
   (let S0 := initial_sigma P (pb_m pb) f0 g0 Σ0 in
    length S0 = pb_m pb /\ Forall (fun x => 0 < x) S0 /\ (p_single P = true -> uniform S0)) ->
   Forall (fun r => Forall (fun x => 0 < x) (it_Sigma r) /\ length (it_Sigma r) = pb_m pb)
@@ -21,32 +20,42 @@ Theorem C07_sigma_positive : forall (P : alm_params) pb f0 g0 nanv Σ0 y0 script
 Proof. exact run_sigma_positive. Qed.
 Print Assumptions C07_sigma_positive.
 
-(* ---- (2) never decrease between outer iterations, never exceed max_penalty — unless the initial ones do ---- *)
-Theorem C07_sigma_monotone_and_le_max : forall (P : alm_params) pb f0 g0 nanv Σ0 y0 script,
-  0 < p_max_pen P -> (p_single P = true -> 1 <= p_Delta P) ->
+(* ---- (2) never decrease between outer iterations — also when the caller's initial penalties exceed max_penalty
+        (no hypothesis relating them to max_penalty, none on Δ; single_penalty_factor needs one common initial value) ---- *)
+Theorem C07_sigma_monotone : forall (P : alm_params) pb f0 g0 nanv Σ0 y0 script,
+  (let S0 := initial_sigma P (pb_m pb) f0 g0 Σ0 in
+   length S0 = pb_m pb /\ Forall (fun x => 0 < x) S0 /\ (p_single P = true -> uniform S0)) ->
+  chain (fun a b => Forall2 Rle (it_Sigma a) (it_Sigma b)) (fst (alm_run P pb f0 g0 nanv Σ0 y0 script)).
+Proof. exact run_sigma_monotone. Qed.
+Print Assumptions C07_sigma_monotone.
+
+(* ---- (2') exact cap: component k never exceeds max(initial Σ_k, max_penalty) ---- *)
+Theorem C07_sigma_le_max_of_initial_and_max_penalty : forall (P : alm_params) pb f0 g0 nanv Σ0 y0 script,
+  (let S0 := initial_sigma P (pb_m pb) f0 g0 Σ0 in
+   length S0 = pb_m pb /\ Forall (fun x => 0 < x) S0 /\ (p_single P = true -> uniform S0)) ->
+  Forall (fun r => Forall2 Rle (it_Sigma r) (map (fun s0 => Rmax s0 (p_max_pen P)) (initial_sigma P (pb_m pb) f0 g0 Σ0)))
+         (fst (alm_run P pb f0 g0 nanv Σ0 y0 script)).
+Proof. exact run_sigma_bound. Qed.
+Print Assumptions C07_sigma_le_max_of_initial_and_max_penalty.
+
+(* ---- (2'') never exceed max_penalty — unless the initial ones do ---- *)
+Theorem C07_sigma_le_max : forall (P : alm_params) pb f0 g0 nanv Σ0 y0 script,
   (let S0 := initial_sigma P (pb_m pb) f0 g0 Σ0 in
    length S0 = pb_m pb /\ Forall (fun x => 0 < x) S0 /\ (p_single P = true -> uniform S0)) ->
   Forall (fun x => x <= p_max_pen P) (initial_sigma P (pb_m pb) f0 g0 Σ0) ->
-  Forall (fun r => Forall (fun x => x <= p_max_pen P) (it_Sigma r)) (fst (alm_run P pb f0 g0 nanv Σ0 y0 script)) /\
-  chain (fun a b => Forall2 Rle (it_Sigma a) (it_Sigma b)) (fst (alm_run P pb f0 g0 nanv Σ0 y0 script)).
-Proof. exact run_sigma_monotone_capped. Qed.
-Print Assumptions C07_sigma_monotone_and_le_max.
+  Forall (fun r => Forall (fun x => x <= p_max_pen P) (it_Sigma r)) (fst (alm_run P pb f0 g0 nanv Σ0 y0 script)).
+Proof. exact run_sigma_le_max. Qed.
+Print Assumptions C07_sigma_le_max.
 
-(* the hypothesis on the initial penalties cannot be dropped: a caller Σ above max_penalty is lowered *)
-Theorem C07_sigma_monotone_refuted_without_cap_hyp :
-  exists (P : alm_params (T:=R)) pb f0 g0 nanv Σ0 y0 script,
-    0 < p_max_pen P /\ (p_single P = true -> 1 <= p_Delta P) /\
-    (let S0 := initial_sigma P (pb_m pb) f0 g0 Σ0 in
-     length S0 = pb_m pb /\ Forall (fun x => 0 < x) S0 /\ (p_single P = true -> uniform S0)) /\
-    ~ chain (fun a b => Forall2 Rle (it_Sigma a) (it_Sigma b)) (fst (alm_run P pb f0 g0 nanv Σ0 y0 script)).
-Proof. exact sigma_monotone_refuted_without_cap. Qed.
-Print Assumptions C07_sigma_monotone_refuted_without_cap_hyp.
+(* one component, for all inputs: never lowered; a component at or above the cap is left exactly as it is *)
+Theorem C07_sigma_component_never_lowered : forall (P : alm_params) first ne e o σ, σ <= upd1 P first ne e o σ.
+Proof. exact upd1_ge. Qed.
+Print Assumptions C07_sigma_component_never_lowered.
 
-(* the mechanism of that refutation, for all inputs: the first update of a component above the cap lowers it to the cap *)
-Theorem C07_sigma_above_cap_is_lowered : forall (P : alm_params) ne e o σ,
-  p_max_pen P < σ -> upd1 P true ne e o σ <= p_max_pen P /\ upd1 P true ne e o σ < σ.
-Proof. exact upd1_lowers_above_cap. Qed.
-Print Assumptions C07_sigma_above_cap_is_lowered.
+Theorem C07_sigma_above_cap_is_kept : forall (P : alm_params) first ne e o σ,
+  p_max_pen P <= σ -> upd1 P first ne e o σ = σ.
+Proof. exact upd1_above_cap_unchanged. Qed.
+Print Assumptions C07_sigma_above_cap_is_kept.
 
 (* the initial penalties satisfy the hypotheses above when the parameters are sane and the caller's Σ (if accepted) is *)
 Theorem C07_initial_sigma_ok : forall (P : alm_params) m f0 g0 Σ0,
@@ -78,11 +87,11 @@ Theorem C07_sigma_grows_only_where_violation_persists : forall (P : alm_params) 
 Proof. exact run_growth. Qed.
 Print Assumptions C07_sigma_grows_only_where_violation_persists.
 
-(* growth factor of one component: min(max_penalty, max(Δ|e_k|/‖e‖∞, 1) σ) where the rule applies, else unchanged *)
+(* new value of one component: max(σ, min(max_penalty, max(Δ|e_k|/‖e‖∞, 1) σ)) where the rule applies, else unchanged *)
 Theorem C07_sigma_growth_factor : forall (P : alm_params) first ne e o σ,
   upd1 P first ne e o σ =
     if first || Raux.Rlt_bool (p_theta P * Rabs o) (Rabs e)
-    then Rmin (p_max_pen P) (Rmax (p_Delta P * Rabs e / ne) 1 * σ) else σ.
+    then Rmax σ (Rmin (p_max_pen P) (Rmax (p_Delta P * Rabs e / ne) 1 * σ)) else σ.
 Proof. exact upd1_value. Qed.
 Print Assumptions C07_sigma_growth_factor.
 
@@ -216,6 +225,16 @@ Example C07_nonvacuous_hypotheses :
   0 <= p_rho P <= 1 /\ p_tol P <= p_init_tol P /\ 0 <= p_init_tol P /\
   0 <= p_M P /\ length (pb_ub wpb) = pb_m wpb /\ length [0] = pb_m wpb.
 Proof. exact w_hyps. Qed.
+
+(* the monotonicity theorem is not vacuous above the cap either: caller Σ = 128 > max_penalty = 64 is accepted, satisfies the
+   hypothesis, and the second inner solve receives 128 again *)
+Example C07_nonvacuous_above_cap :
+  let P := wP 1 (1/4) in
+  (let S0 := initial_sigma P (pb_m wpb) 0 [0] (Some [128]) in
+   length S0 = pb_m wpb /\ Forall (fun x => 0 < x) S0 /\ (p_single P = true -> uniform S0)) /\
+  exists a b tr', fst (alm_run P wpb 0 [0] 0 (Some [128]) [0] [wr; wr]) = a :: b :: tr' /\
+    it_Sigma a = [128] /\ it_Sigma b = [128] /\ p_max_pen P < 128.
+Proof. exact w_sigma_above_cap_kept. Qed.
 
 Example C07_nonvacuous_run :
   let P := wP 1 (1/4) in
